@@ -4,6 +4,7 @@ import "fmt"
 
 // NewIntEnumSchema creates a new enum of integer values.
 func NewIntEnumSchema(validValues map[int64]*DisplayValue, units *UnitsDefinition) *IntEnumSchema {
+	validValues = withDisplayValues(validValues)
 	return &IntEnumSchema{
 		EnumSchema[int64, int64]{
 			ValidValuesMap: validValues,
